@@ -5,6 +5,7 @@
 -/
 import PolyVerif.Model.Ply
 import PolyVerif.Lemmas.Ply
+import PolyVerif.Model.PlySpec
 
 namespace PolyVerif
 namespace PlyHeader
@@ -631,6 +632,391 @@ theorem parse_cut (h : Header) (hok : HeaderOK h) (p t : Bytes) (hpt : p ++ t = 
   have : flatLines [nm "end_header"] = nm "end_header" ++ [10] := by simp [flatLines]
   rw [this] at hpt
   exact cut_err (hlines h) .init s _ (hlines_ok h hok) hs (lineOK_lit _ (by decide)) p t hpt ht
+
+
+/-! ## foreign-tool headers: any spelling, comments anywhere, LF / CRLF -/
+
+open PlySpec
+
+/-- comment line with any text: the parser stores the trimmed text -/
+theorem step_comment' (s : HState) (hs : s.phase = .body) (c : Bytes) :
+    headerStep s (nm "comment " ++ c) = .ok (.inl { s with comments := trimSpace c :: s.comments }) := by
+  have hf : fields (nm "comment " ++ c) = nm "comment" :: fieldsAux c [] := by
+    rw [nm_comment_sp, nm_comment]
+    have := fields_tok_sp _ tok_lit_comment c
+    simpa [fields] using this
+  have htrim : trimSpace (32 :: c) = trimSpace c := by
+    simp [trimSpace, trimLeft, show isSpace 32 = true by decide]
+  simp only [headerStep, hs, hf]
+  rw [nm_comment_sp, nm_end_header, nm_comment]
+  simp [isBlank, isSpace, indexOf, List.isPrefixOf, htrim]
+
+theorem nm_objinfo_sp : nm "obj_info " = [111, 98, 106, 95, 105, 110, 102, 111, 32] := by decide
+theorem nm_objinfo : nm "obj_info" = [111, 98, 106, 95, 105, 110, 102, 111] := by decide
+theorem tok_lit_objinfo : Tok [111, 98, 106, 95, 105, 110, 102, 111] := by refine ⟨by simp, by decide⟩
+
+/-- obj_info lines are read and dropped -/
+theorem step_objinfo (s : HState) (hs : s.phase = .body) (c : Bytes) :
+    headerStep s (nm "obj_info " ++ c) = .ok (.inl s) := by
+  have hf : fields (nm "obj_info " ++ c) = nm "obj_info" :: fieldsAux c [] := by
+    rw [nm_objinfo_sp, nm_objinfo]
+    have := fields_tok_sp _ tok_lit_objinfo c
+    simpa [fields] using this
+  simp only [headerStep, hs, hf]
+  have h1 : nm "obj_info" ≠ nm "comment" := by decide
+  have h2 : nm "obj_info" ≠ nm "element" := by decide
+  have h3 : nm "obj_info" ≠ nm "property" := by decide
+  rw [nm_objinfo_sp, nm_end_header]
+  simp [isBlank, isSpace, h1, h2, h3]
+
+/-- a type spelling the parser maps to `t` -/
+def Spells (tn : Bytes) (t : SType) : Prop := parseSType tn = .ok t ∧ lower tn ≠ nm "list" ∧ Tok tn
+
+theorem spells_typeName (t : SType) (al : Bool) : Spells (typeName t al) t := by
+  cases t <;> cases al <;> exact ⟨by decide, by decide, ⟨by decide, by decide⟩⟩
+
+theorem step_scalar' (s : HState) (hs : s.phase = .body) (e : Element) (es : List Element) (he : s.elements = e :: es)
+    (n : Bytes) (hn : Tok n) (t : SType) (tn : Bytes) (htn : Spells tn t) :
+    headerStep s (nm "property " ++ tn ++ sp ++ n)
+      = .ok (.inl { s with elements := { e with props := e.props ++ [.scalar n t] } :: es }) := by
+  obtain ⟨hp, hlist, htok⟩ := htn
+  have hf : fields (nm "property " ++ tn ++ sp ++ n) = [nm "property", tn, n] := by
+    rw [nm_property_sp, nm_property]
+    have e' : ([112, 114, 111, 112, 101, 114, 116, 121, 32] : Bytes) ++ tn ++ sp ++ n
+        = [112, 114, 111, 112, 101, 114, 116, 121] ++ 32 :: (tn ++ 32 :: n) := by simp [sp]
+    rw [fields, e', fields_tok_sp _ tok_lit_property, fields_tok_sp _ htok, fields_tok_end _ hn]
+  have hnb : isBlank (nm "property " ++ tn ++ sp ++ n) = false := by
+    rw [nm_property_sp]; simp [isBlank, isSpace]
+  have hne : (nm "property " ++ tn ++ sp ++ n) ≠ nm "end_header" := by
+    rw [nm_property_sp, nm_end_header]; simp
+  simp only [headerStep, hs, hnb, Bool.false_eq_true, if_false, hne, hf]
+  have h1 : nm "property" ≠ nm "comment" := by decide
+  have h2 : nm "property" ≠ nm "element" := by decide
+  simp [h1, h2, parseProperty, hlist, hp, he, bind, Except.bind, pure, Except.pure]
+
+theorem step_list' (s : HState) (hs : s.phase = .body) (e : Element) (es : List Element) (he : s.elements = e :: es)
+    (n : Bytes) (hn : Tok n) (hl : lower n = n) (ct it : SType) (cn tn : Bytes) (hcn : Spells cn ct) (htn : Spells tn it) :
+    headerStep s (nm "property list " ++ cn ++ sp ++ tn ++ sp ++ n)
+      = .ok (.inl { s with elements := { e with props := e.props ++ [.list n ct it] } :: es }) := by
+  obtain ⟨hp1, _, htok1⟩ := hcn
+  obtain ⟨hp2, _, htok2⟩ := htn
+  have hf : fields (nm "property list " ++ cn ++ sp ++ tn ++ sp ++ n) = [nm "property", nm "list", cn, tn, n] := by
+    rw [nm_property_list_sp, nm_property, nm_list]
+    have e' : ([112, 114, 111, 112, 101, 114, 116, 121, 32, 108, 105, 115, 116, 32] : Bytes) ++ cn ++ sp ++ tn ++ sp ++ n
+        = [112, 114, 111, 112, 101, 114, 116, 121] ++ 32 :: ([108, 105, 115, 116] ++ 32 :: (cn ++ 32 :: (tn ++ 32 :: n))) := by
+      simp [sp]
+    rw [fields, e', fields_tok_sp _ tok_lit_property, fields_tok_sp _ tok_lit_list, fields_tok_sp _ htok1,
+      fields_tok_sp _ htok2, fields_tok_end _ hn]
+  have hnb : isBlank (nm "property list " ++ cn ++ sp ++ tn ++ sp ++ n) = false := by
+    rw [nm_property_list_sp]; simp [isBlank, isSpace]
+  have hne : (nm "property list " ++ cn ++ sp ++ tn ++ sp ++ n) ≠ nm "end_header" := by
+    rw [nm_property_list_sp, nm_end_header]; simp
+  simp only [headerStep, hs, hnb, Bool.false_eq_true, if_false, hne, hf]
+  have h1 : nm "property" ≠ nm "comment" := by decide
+  have h2 : nm "property" ≠ nm "element" := by decide
+  have h3 : lower (nm "list") = nm "list" := by decide
+  simp [h1, h2, parseProperty, h3, hp1, hp2, he, hl, bind, Except.bind, pure, Except.pure]
+
+/-! ## lines ended by LF or CRLF -/
+
+def flatLinesE (crlf : Bool) (ls : List Bytes) : Bytes := (ls.map (· ++ eol crlf)).flatten
+
+theorem run_linesE (crlf : Bool) : ∀ (ls : List Bytes) (s s' : HState) (rest : Bytes), (∀ l ∈ ls, LineOK l) →
+    steps s ls = some s' → headerLoop s (flatLinesE crlf ls ++ rest) = headerLoop s' rest := by
+  intro ls
+  induction ls with
+  | nil => intro s s' rest _ h; simp [steps] at h; subst h; simp [flatLinesE]
+  | cons l ls ih =>
+    intro s s' rest hok h
+    have hr : readLine (flatLinesE crlf (l :: ls) ++ rest) = some (l, flatLinesE crlf ls ++ rest) := by
+      cases crlf with
+      | false =>
+        have := readLine_lf l (flatLinesE false ls ++ rest) (hok l (by simp))
+        simpa [flatLinesE, eol, List.append_assoc] using this
+      | true =>
+        have := readLine_crlf l (flatLinesE true ls ++ rest) (hok l (by simp))
+        simpa [flatLinesE, eol, List.append_assoc] using this
+    rw [headerLoop_step s _ l _ hr]
+    simp only [steps] at h
+    cases hst : headerStep s l with
+    | error e => simp [hst] at h
+    | ok r =>
+      cases r with
+      | inr hdr => simp [hst] at h
+      | inl s1 =>
+        simp only [hst] at h ⊢
+        exact ih s1 s' rest (fun l' hl' => hok l' (by simp [hl'])) h
+
+
+/-! ## the header the reference encoder prints (C08) -/
+
+variable {α : Type}
+
+def _root_.PolyVerif.PlySpec.HItem.text : HItem → Bytes
+  | .comment t => t
+  | .objInfo t => t
+
+def itemLine : HItem → Bytes
+  | .comment t => nm "comment " ++ t
+  | .objInfo t => nm "obj_info " ++ t
+
+/-- the comments `ReadHeader` collects: the comment texts, trimmed, in file order (obj_info lines are dropped) -/
+def specComments (f : SpecFile α) : List Bytes :=
+  (f.pre ++ f.mid ++ f.post).filterMap (fun i => match i with | .comment t => some (trimSpace t) | .objInfo _ => none)
+
+def specProps (f : SpecFile α) : List (Bytes × SType) := f.vprops.map (fun p => (p.name, p.ty))
+
+/-- the header `ReadHeader` returns for `specHeader f` -/
+def specHdr (f : SpecFile α) : Header :=
+  { format := f.format
+    elements :=
+      [⟨nm "vertex", f.verts.length, f.vprops.map (fun p => .scalar p.name p.ty)⟩] ++
+      (match f.face with
+       | none => []
+       | some fe => [⟨nm "face", fe.faces.length, fe.lists.map (fun x => .list x.2.1 x.2.2.1 x.2.2.2.1)⟩])
+    comments := specComments f }
+
+def propLine (p : SpecProp) : Bytes := nm "property " ++ typeName p.ty p.alias ++ sp ++ p.name
+
+def listLine (x : Nat × Bytes × SType × SType × Bool) : Bytes :=
+  nm "property list " ++ typeName x.2.2.1 false ++ sp ++ typeName x.2.2.2.1 x.2.2.2.2 ++ sp ++ x.2.1
+
+def faceLines (f : SpecFile α) : List Bytes :=
+  match f.face with
+  | none => []
+  | some fe => (nm "element " ++ nm "face" ++ sp ++ showInt (fe.faces.length : Int)) :: fe.lists.map listLine
+
+def slines (f : SpecFile α) : List Bytes :=
+  [nm "ply", f.format.line] ++ f.pre.map itemLine ++
+  [nm "element " ++ nm "vertex" ++ sp ++ showInt (f.verts.length : Int)] ++ f.vprops.map propLine ++
+  f.mid.map itemLine ++ faceLines f ++ f.post.map itemLine
+
+theorem showInt_nat (n : Nat) : showInt (n : Int) = showNat n := by
+  simp [showInt, show ¬ ((n : Int) < 0) by omega]
+
+theorem hline_item (crlf : Bool) (i : HItem) : hline crlf i.words = itemLine i ++ eol crlf := by
+  cases i <;> simp [hline, joinWords, intercalate, HItem.words, itemLine, nm_comment, nm_comment_sp, nm_objinfo, nm_objinfo_sp]
+
+theorem flatLinesE_append (crlf : Bool) (a b : List Bytes) :
+    flatLinesE crlf (a ++ b) = flatLinesE crlf a ++ flatLinesE crlf b := by simp [flatLinesE]
+
+theorem flatLinesE_one (crlf : Bool) (l : Bytes) : flatLinesE crlf [l] = l ++ eol crlf := by simp [flatLinesE]
+
+theorem seg_items (crlf : Bool) (its : List HItem) :
+    (its.map (fun i => hline crlf i.words)).flatten = flatLinesE crlf (its.map itemLine) := by
+  simp [flatLinesE, List.map_map, Function.comp_def, hline_item]
+
+theorem seg_props (crlf : Bool) (ps : List SpecProp) :
+    (ps.map (fun p => hline crlf [nm "property", typeName p.ty p.alias, p.name])).flatten
+      = flatLinesE crlf (ps.map propLine) := by
+  have : ∀ p : SpecProp, hline crlf [nm "property", typeName p.ty p.alias, p.name] = propLine p ++ eol crlf := by
+    intro p; simp [hline, joinWords, intercalate, propLine, sp, nm_property, nm_property_sp]
+  simp [flatLinesE, List.map_map, Function.comp_def, this]
+
+theorem seg_lists (crlf : Bool) (xs : List (Nat × Bytes × SType × SType × Bool)) :
+    (xs.map (fun x => hline crlf [nm "property", nm "list", typeName x.2.2.1 false, typeName x.2.2.2.1 x.2.2.2.2, x.2.1])).flatten
+      = flatLinesE crlf (xs.map listLine) := by
+  have : ∀ x : Nat × Bytes × SType × SType × Bool,
+      hline crlf [nm "property", nm "list", typeName x.2.2.1 false, typeName x.2.2.2.1 x.2.2.2.2, x.2.1] = listLine x ++ eol crlf := by
+    intro x; simp [hline, joinWords, intercalate, listLine, sp, nm_property, nm_list, nm_property_list_sp]
+  simp [flatLinesE, List.map_map, Function.comp_def, this]
+
+theorem seg_element (crlf : Bool) (name : Bytes) (n : Nat) :
+    hline crlf [nm "element", name, showNat n] = (nm "element " ++ name ++ sp ++ showInt (n : Int)) ++ eol crlf := by
+  simp [hline, joinWords, intercalate, sp, showInt_nat, nm_element, nm_element_sp]
+
+theorem specHeader_eq (f : SpecFile α) : specHeader f = flatLinesE f.crlf (slines f ++ [nm "end_header"]) := by
+  have hfmt : joinWords [nm "format", formatWord f.format, nm "1.0"] = f.format.line := by
+    cases f.format <;> decide
+  have hply : hline f.crlf [nm "ply"] = flatLinesE f.crlf [nm "ply"] := by simp [hline, joinWords, intercalate, flatLinesE]
+  have hend : hline f.crlf [nm "end_header"] = flatLinesE f.crlf [nm "end_header"] := by
+    simp [hline, joinWords, intercalate, flatLinesE]
+  have hfl : hline f.crlf [nm "format", formatWord f.format, nm "1.0"] = flatLinesE f.crlf [f.format.line] := by
+    simp [hline, hfmt, flatLinesE]
+  have hv : hline f.crlf [nm "element", nm "vertex", showNat f.verts.length]
+      = flatLinesE f.crlf [nm "element " ++ nm "vertex" ++ sp ++ showInt (f.verts.length : Int)] := by
+    rw [seg_element, flatLinesE_one]
+  cases hf : f.face with
+  | none =>
+    simp only [specHeader, hf, slines, faceLines, hply, hfl, hv, hend, seg_items, seg_props, ← flatLinesE_append,
+      List.append_assoc, List.append_nil, List.nil_append]
+    simp
+  | some fe =>
+    have hfe : hline f.crlf [nm "element", nm "face", showNat fe.faces.length]
+        = flatLinesE f.crlf [nm "element " ++ nm "face" ++ sp ++ showInt (fe.faces.length : Int)] := by
+      rw [seg_element, flatLinesE_one]
+    simp only [specHeader, hf, slines, faceLines, hply, hfl, hv, hend, hfe, seg_items, seg_props, seg_lists,
+      ← flatLinesE_append, List.append_assoc, List.append_nil, List.nil_append]
+    simp
+
+
+/-- guards of the header text layer for reference-encoded files: property names are tokens, comment / obj_info texts
+hold no CR / LF, counts fit int64 -/
+structure SpecHeaderOK (f : SpecFile α) : Prop where
+  names : ∀ p ∈ f.vprops, Tok p.name
+  items : ∀ i ∈ f.pre ++ f.mid ++ f.post, LineOK i.text
+  nverts : f.verts.length < 2 ^ 63
+  nfaces : ∀ fe, f.face = some fe → fe.faces.length < 2 ^ 63
+
+def itemComments (its : List HItem) : List Bytes :=
+  its.filterMap (fun i => match i with | .comment t => some (trimSpace t) | .objInfo _ => none)
+
+theorem steps_items : ∀ (its : List HItem) (s : HState), s.phase = .body →
+    steps s (its.map itemLine) = some { s with comments := (itemComments its).reverse ++ s.comments } := by
+  intro its
+  induction its with
+  | nil => intro s _; rfl
+  | cons i its ih =>
+    intro s hs
+    cases i with
+    | comment t =>
+      simp only [List.map_cons, itemLine, steps, step_comment' s hs t]
+      have := ih { s with comments := trimSpace t :: s.comments } hs
+      rw [this]; simp [itemComments]
+    | objInfo t =>
+      simp only [List.map_cons, itemLine, steps, step_objinfo s hs t]
+      rw [ih s hs]; simp [itemComments]
+
+theorem steps_vprops : ∀ (ps : List SpecProp) (s : HState) (e : Element) (es : List Element), s.phase = .body →
+    s.elements = e :: es → (∀ p ∈ ps, Tok p.name) →
+    steps s (ps.map propLine)
+      = some { s with elements := { e with props := e.props ++ ps.map (fun p => .scalar p.name p.ty) } :: es } := by
+  intro ps
+  induction ps with
+  | nil => intro s e es _ he _; simp [steps, ← he]
+  | cons p ps ih =>
+    intro s e es hs he hok
+    have hstep := step_scalar' s hs e es he p.name (hok p (by simp)) p.ty _ (spells_typeName p.ty p.alias)
+    simp only [List.map_cons, propLine, steps, hstep]
+    have := ih { s with elements := { e with props := e.props ++ [.scalar p.name p.ty] } :: es }
+      { e with props := e.props ++ [.scalar p.name p.ty] } es hs rfl (fun q hq => hok q (by simp [hq]))
+    simp only [propLine] at this
+    rw [this]; simp
+
+theorem steps_lists : ∀ (xs : List (Nat × Bytes × SType × SType × Bool)) (s : HState) (e : Element) (es : List Element),
+    s.phase = .body → s.elements = e :: es → (∀ x ∈ xs, Tok x.2.1 ∧ lower x.2.1 = x.2.1) →
+    steps s (xs.map listLine)
+      = some { s with elements := { e with props := e.props ++ xs.map (fun x => .list x.2.1 x.2.2.1 x.2.2.2.1) } :: es } := by
+  intro xs
+  induction xs with
+  | nil => intro s e es _ he _; simp [steps, ← he]
+  | cons x xs ih =>
+    intro s e es hs he hok
+    have hx := hok x (by simp)
+    have hstep := step_list' s hs e es he x.2.1 hx.1 hx.2 x.2.2.1 x.2.2.2.1 _ _ (spells_typeName x.2.2.1 false)
+      (spells_typeName x.2.2.2.1 x.2.2.2.2)
+    simp only [List.map_cons, listLine, steps, hstep]
+    have := ih { s with elements := { e with props := e.props ++ [.list x.2.1 x.2.2.1 x.2.2.2.1] } :: es }
+      { e with props := e.props ++ [.list x.2.1 x.2.2.1 x.2.2.2.1] } es hs rfl (fun q hq => hok q (by simp [hq]))
+    simp only [listLine] at this
+    rw [this]; simp
+
+def faceListNames : List Bytes := [nm "vertex_index", nm "vertex_indices", nm "texcoord", nm "flags"]
+
+theorem lists_names_mem (fe : SpecFaceElem α) : fe.lists.all (fun x => faceListNames.contains x.2.1) = true := by
+  obtain ⟨short, ct, it, ia, tex, tf, ex, faces⟩ := fe
+  cases short <;> cases tex <;> cases tf <;> cases ex <;> (try rename_i b; cases b) <;>
+    simp [SpecFaceElem.lists, faceListNames] <;> decide
+
+theorem lists_names_ok (fe : SpecFaceElem α) : ∀ x ∈ fe.lists, Tok x.2.1 ∧ lower x.2.1 = x.2.1 := by
+  have hall : ∀ n ∈ faceListNames, Tok n ∧ lower n = n := by
+    intro n hn
+    simp only [faceListNames, List.mem_cons, List.not_mem_nil, or_false] at hn
+    rcases hn with rfl | rfl | rfl | rfl <;> exact ⟨⟨by decide, by decide⟩, by decide⟩
+  intro x hx
+  have := List.all_eq_true.mp (lists_names_mem fe) x hx
+  exact hall _ (by simpa using this)
+
+
+theorem steps_slines (f : SpecFile α) (hok : SpecHeaderOK f) :
+    ∃ s, steps .init (slines f) = some s ∧ s.phase = .body ∧ s.header = specHdr f := by
+  have hvert : Tok (nm "vertex") ∧ lower (nm "vertex") = nm "vertex" := ⟨⟨by decide, by decide⟩, by decide⟩
+  have hface : Tok (nm "face") ∧ lower (nm "face") = nm "face" := ⟨⟨by decide, by decide⟩, by decide⟩
+  -- after magic, format and the first block of items
+  let s1 : HState := ⟨.body, f.format, [], (itemComments f.pre).reverse⟩
+  have h1 : steps .init ([nm "ply", f.format.line] ++ f.pre.map itemLine) = some s1 := by
+    simp only [List.cons_append, List.nil_append, steps, step_magic,
+      step_format _ (rfl : ({ HState.init with phase := HPhase.format } : HState).phase = .format) f.format]
+    rw [steps_items f.pre _ rfl]; simp [HState.init, s1]
+  let s1v : HState := { s1 with elements := [⟨nm "vertex", f.verts.length, []⟩] }
+  have h2a : steps s1 [nm "element " ++ nm "vertex" ++ sp ++ showInt (f.verts.length : Int)] = some s1v := by
+    simp only [steps, step_element s1 rfl (nm "vertex") hvert.1 hvert.2 f.verts.length hok.nverts]
+    simp [s1v, s1]
+  let s2 : HState := { s1 with elements := [⟨nm "vertex", f.verts.length, f.vprops.map (fun p => .scalar p.name p.ty)⟩] }
+  have h2b : steps s1v (f.vprops.map propLine) = some s2 := by
+    rw [steps_vprops f.vprops s1v ⟨nm "vertex", f.verts.length, []⟩ [] rfl rfl hok.names]
+    simp [s2, s1v, s1]
+  let s3 : HState := { s2 with comments := (itemComments f.mid).reverse ++ s2.comments }
+  have h3 : steps s2 (f.mid.map itemLine) = some s3 := steps_items f.mid s2 rfl
+  let faceEls : List Element := match f.face with
+    | none => []
+    | some fe => [⟨nm "face", fe.faces.length, fe.lists.map (fun x => .list x.2.1 x.2.2.1 x.2.2.2.1)⟩]
+  let s4 : HState := { s3 with elements := faceEls.reverse ++ s3.elements }
+  have h4 : steps s3 (faceLines f) = some s4 := by
+    cases hf : f.face with
+    | none => simp [faceLines, hf, steps, s4, faceEls]
+    | some fe =>
+      simp only [faceLines, hf, steps, step_element s3 rfl (nm "face") hface.1 hface.2 fe.faces.length (hok.nfaces fe hf)]
+      rw [steps_lists fe.lists _ ⟨nm "face", fe.faces.length, []⟩ s3.elements rfl rfl (lists_names_ok fe)]
+      simp [s4, faceEls, hf]
+  let s5 : HState := { s4 with comments := (itemComments f.post).reverse ++ s4.comments }
+  have h5 : steps s4 (f.post.map itemLine) = some s5 := steps_items f.post s4 rfl
+  refine ⟨s5, ?_, rfl, ?_⟩
+  · unfold slines
+    rw [steps_append, steps_append, steps_append, steps_append, steps_append, h1]
+    simp only [Option.bind_some, h2a, h2b, h3, h4, h5]
+  · simp only [HState.header, specHdr, specComments, s5, s4, s3, s2, s1, faceEls]
+    cases hf : f.face <;>
+      simp [itemComments, List.filterMap_append, List.reverse_append]
+
+theorem slines_ok (f : SpecFile α) (hok : SpecHeaderOK f) : ∀ l ∈ slines f, LineOK l := by
+  have hitem : ∀ i ∈ f.pre ++ f.mid ++ f.post, LineOK (itemLine i) := by
+    intro i hi
+    have := hok.items i hi
+    cases i <;> exact lineOK_append _ _ (lineOK_lit _ (by decide)) this
+  have helem : ∀ (name : Bytes) (n : Nat), Tok name → LineOK (nm "element " ++ name ++ sp ++ showInt (n : Int)) := by
+    intro name n hn
+    rw [showInt_nat]
+    exact lineOK_append _ _ (lineOK_append _ _ (lineOK_append _ _ (lineOK_lit _ (by decide)) (tok_line _ hn))
+      (lineOK_lit _ (by decide))) (tok_line _ (showNat_tok _))
+  intro l hl
+  simp only [slines, List.mem_append, List.mem_cons, List.mem_map, List.not_mem_nil, or_false] at hl
+  rcases hl with (((((( rfl | rfl) | ⟨i, hi, rfl⟩) | rfl) | ⟨p, hp, rfl⟩) | ⟨i, hi, rfl⟩) | hl) | ⟨i, hi, rfl⟩
+  · exact lineOK_lit _ (by decide)
+  · cases f.format <;> exact lineOK_lit _ (by decide)
+  · exact hitem i (by simp [hi])
+  · exact helem _ _ ⟨by decide, by decide⟩
+  · exact lineOK_append _ _ (lineOK_append _ _ (lineOK_append _ _ (lineOK_lit _ (by decide))
+      (tok_line _ (spells_typeName p.ty p.alias).2.2)) (lineOK_lit _ (by decide))) (tok_line _ (hok.names p hp))
+  · exact hitem i (by simp [hi])
+  · cases hf : f.face with
+    | none => simp [faceLines, hf] at hl
+    | some fe =>
+      simp only [faceLines, hf, List.mem_cons, List.mem_map] at hl
+      rcases hl with rfl | ⟨x, hx, rfl⟩
+      · exact helem _ _ ⟨by decide, by decide⟩
+      · exact lineOK_append _ _ (lineOK_append _ _ (lineOK_append _ _ (lineOK_append _ _ (lineOK_append _ _
+          (lineOK_lit _ (by decide)) (tok_line _ (spells_typeName _ _).2.2)) (lineOK_lit _ (by decide)))
+          (tok_line _ (spells_typeName _ _).2.2)) (lineOK_lit _ (by decide))) (tok_line _ (lists_names_ok fe x hx).1)
+  · exact hitem i (by simp [hi])
+
+/-- THE HEADER A FOREIGN TOOL PRINTS PARSES TO WHAT IT SAYS: `ReadHeader` on the reference encoder's header text — any
+property order, alias spellings, comment / obj_info lines before, between and after the elements, LF or CRLF — followed
+by any body returns `specHdr f` and leaves exactly the body -/
+theorem parse_specHeader (f : SpecFile α) (hok : SpecHeaderOK f) (body : Bytes) :
+    parseHeader (specHeader f ++ body) = .ok (specHdr f, body) := by
+  obtain ⟨s, hs, hph, hhdr⟩ := steps_slines f hok
+  rw [parseHeader, specHeader_eq, flatLinesE_append, List.append_assoc,
+    run_linesE f.crlf (slines f) .init s _ (slines_ok f hok) hs]
+  have hr : readLine (flatLinesE f.crlf [nm "end_header"] ++ body) = some (nm "end_header", body) := by
+    cases hc : f.crlf with
+    | false =>
+      have := readLine_lf (nm "end_header") body (lineOK_lit _ (by decide))
+      simpa [flatLinesE, eol] using this
+    | true =>
+      have := readLine_crlf (nm "end_header") body (lineOK_lit _ (by decide))
+      simpa [flatLinesE, eol] using this
+  rw [headerLoop_step s _ _ _ hr, step_end s hph, hhdr]
 
 
 end PlyHeader
